@@ -15,6 +15,7 @@
 #include <stdio.h>
 #include <stdlib.h>
 #include <string.h>
+#include <sys/resource.h>   /* setrlimit: command aslimit (round 3) */
 
 /* ---------------------------------------------------------------- recording wrappers */
 typedef struct { int kind; unsigned long long a, b, c, d; unsigned long long e; } rec_t;
@@ -126,13 +127,21 @@ static void print_recs(void)
 
 /* custom-callback access: an independent implementation of the read/seek contract of zstd_seekable.h */
 typedef struct { const unsigned char* p; size_t size; size_t head; unsigned long long nread, nseek;
-                 unsigned long long fail_seek, fail_read;   /* fault injection: the k-th next call fails once (0 = never) */ } cbsrc_t;
+                 unsigned long long fail_seek, fail_read;   /* fault injection: the k-th next call fails once (0 = never) */
+                 unsigned long long fail_readpart;          /* round 3: the k-th next read fails once AFTER delivering part of the bytes (read head moved) */ } cbsrc_t;
 static int g_cb_ok = 0;   /* value the callbacks return on success: the header allows any non-negative value */
 static int cb_read(void* opaque, void* buffer, size_t n)
 {
     cbsrc_t* s = (cbsrc_t*)opaque; size_t i;
     s->nread++;
     if (s->fail_read && --s->fail_read == 0) return -1;   /* injected transient I/O error */
+    if (s->fail_readpart && --s->fail_readpart == 0) {    /* injected transient I/O error after a partial transfer: like fread(), whose
+                                                           * file position is indeterminate after an error (C11 7.21.8.1) */
+        size_t h = (n + 1) / 2; if (h > s->size - s->head) h = s->size - s->head;
+        for (i = 0; i < h; i++) ((unsigned char*)buffer)[i] = s->p[s->head + i];
+        s->head += h;
+        return -1;
+    }
     if (n > s->size - s->head) return -1;              /* premature EOF is an error */
     for (i = 0; i < n; i++) ((unsigned char*)buffer)[i] = s->p[s->head + i];
     s->head += n;
@@ -315,7 +324,7 @@ int main(int argc, char** argv)
             } else {
                 ZSTD_seekable_customFile cf;
                 memcopy = (unsigned char*)malloc(A.n ? A.n : 1); if (A.n) memcpy(memcopy, A.p, A.n);
-                cbsrc.p = memcopy; cbsrc.size = A.n; cbsrc.head = 0; cbsrc.nread = cbsrc.nseek = 0; cbsrc.fail_seek = cbsrc.fail_read = 0;
+                cbsrc.p = memcopy; cbsrc.size = A.n; cbsrc.head = 0; cbsrc.nread = cbsrc.nseek = 0; cbsrc.fail_seek = cbsrc.fail_read = cbsrc.fail_readpart = 0;
                 cf.opaque = &cbsrc; cf.read = cb_read; cf.seek = cb_seek;
                 r = ZSTD_seekable_initAdvanced(zs, cf);
             }
@@ -349,7 +358,7 @@ int main(int argc, char** argv)
             } else {
                 ZSTD_seekable_customFile cf;
                 memcopy = (unsigned char*)malloc(A.n ? A.n : 1); if (A.n) memcpy(memcopy, A.p, A.n);
-                cbsrc.p = memcopy; cbsrc.size = A.n; cbsrc.head = 0; cbsrc.nread = cbsrc.nseek = 0; cbsrc.fail_seek = cbsrc.fail_read = 0;
+                cbsrc.p = memcopy; cbsrc.size = A.n; cbsrc.head = 0; cbsrc.nread = cbsrc.nseek = 0; cbsrc.fail_seek = cbsrc.fail_read = cbsrc.fail_readpart = 0;
                 cf.opaque = &cbsrc; cf.read = cb_read; cf.seek = cb_seek;
                 r = ZSTD_seekable_initAdvanced(zs, cf);
             }
@@ -403,7 +412,7 @@ int main(int argc, char** argv)
         } else if (!strcmp(cmd, "cbfail")) {        /* cbfail seek|read <k> : the k-th next callback of that kind fails once (callback access only) */
             char what[16]; unsigned long long k = 0; what[0] = 0;
             sscanf(line + off, "%15s %llu", what, &k);
-            if (!strcmp(what, "seek")) cbsrc.fail_seek = k; else cbsrc.fail_read = k;
+            if (!strcmp(what, "seek")) cbsrc.fail_seek = k; else if (!strcmp(what, "readpart")) cbsrc.fail_readpart = k; else cbsrc.fail_read = k;
             printf("cbfail %s %llu\n", what, k);
         } else if (!strcmp(cmd, "table")) {         /* all accessors for i in 0..n+2 and 2^32-1, through both API families */
             unsigned n, i; ZSTD_seekTable* st;
@@ -448,6 +457,7 @@ int main(int argc, char** argv)
             else r = ZSTD_seekable_decompressFrame(zs, dst, cap, (unsigned)a);
             printf("%s %llu %llu", cmd, a, b); print_ret("ret", r);
             printf(" cur=%u doff=%llu", zs->curFrame, (unsigned long long)zs->decompressedOffset);
+            printf(" armed=%llu", cbsrc.fail_seek + cbsrc.fail_read + cbsrc.fail_readpart);   /* injected faults still pending after this call */
             if (!ZSTD_isError(r) && r <= cap) {
                 printf(" crc=%08x", crc32_of(dst, r));
                 if (r <= 48) { printf(" data="); print_hex(dst, r); }
@@ -490,6 +500,13 @@ int main(int argc, char** argv)
                 pos += fs;
             }
             printf("\n");
+        } else if (!strcmp(cmd, "aslimit")) {       /* aslimit <MiB> : cap the address space of this process (round 3: a loader that accepts a
+                                                     * footer claiming 2^29 frames asks for 12 GiB; under the cap that shows as memory_allocation) */
+            unsigned long long mib = 0; struct rlimit rl; int rr;
+            sscanf(line + off, "%llu", &mib);
+            rl.rlim_cur = rl.rlim_max = (rlim_t)(mib << 20);
+            rr = setrlimit(RLIMIT_AS, &rl);
+            printf("aslimit %llu rc=%d\n", mib, rr);
         } else if (!strcmp(cmd, "close")) {
             close_seekable(); printf("close\n");
         } else {
